@@ -156,6 +156,7 @@ func C02(ctx *core.Ctx) int {
 				decodeChecks(ctx, pc, cc, i, si, st, nil)
 			}
 		}
+		offDecChecks(ctx, pc, cc, st)
 	})
 	cov := st.coverage("same cells and messages as C01; every emitted decoder is fed the *reference* encoding of every message, alone and followed by trailing bytes (ffffff, 00, a second copy of the message); "+
 		"oracle: decoded members equal the message (fixed strings trimmed, length/checksum members = wire values), read position = message length, re-encoding reproduces the bytes. distinct_nontrivial = distinct decode observations", cases)
@@ -518,6 +519,9 @@ func projection(ctx *core.Ctx, progs []*dsl.Program, kind wire.FKind, rule strin
 		}
 		if kind == wire.KChecksum {
 			regChecks(ctx, pc, cc, st)
+		}
+		if kind == wire.KChecksum || kind == wire.KLenOf {
+			offEncChecks(ctx, pc, cc, st, int(kind))
 		}
 	})
 	if kind == wire.KMatch {
